@@ -149,27 +149,64 @@ def decode(case, v):
             "oracle": [r[2] for r in per] if case["oracle"] else None}
 
 
+class _Hang(BaseException):
+    pass
+
+
+def _on_vtalrm(signum, frame):
+    raise _Hang()
+
+
+_HANGS = 0          # per worker process
+HANG_CPU_S = 0.5    # CPU seconds allowed for ONE m_separated call (normal: < 1 ms on these graphs)
+HANG_LIMIT = 8      # after that many hanging calls a worker stops running bulk cases (they are reported as skipped)
+
+
 def run_impl(case):
+    """observable of the implementation.  A call that burns more than HANG_CPU_S of CPU is cut and reported as result 3
+    (a non-terminating search would otherwise stall the whole check); once a worker has seen HANG_LIMIT such calls it skips
+    the remaining bulk cases (shrink candidates, marked _noskip, are always run)."""
+    global _HANGS
+    import signal
     import networkx as nx
     import pywhy_graphs.networkx as pywhy_nx
+    if _HANGS >= HANG_LIMIT and not case.get("_noskip"):
+        return {"skipped": True}
     M, lab, inv = gr.to_mixed(case["g"], case, layers=tuple(case["layers"]))
     before = gr.snapshot(M)
     res, sym = [], []
+    signal.signal(signal.SIGVTALRM, _on_vtalrm)
 
     def call(A, B, Z):
+        global _HANGS
+        a, b, z = {lab(v) for v in A}, {lab(v) for v in B}, {lab(v) for v in Z}
         try:
-            return int(bool(pywhy_nx.m_separated(M, {lab(v) for v in A}, {lab(v) for v in B}, {lab(v) for v in Z})))
+            signal.setitimer(signal.ITIMER_VIRTUAL, HANG_CPU_S)
+            try:
+                r = pywhy_nx.m_separated(M, a, b, z)
+            finally:
+                signal.setitimer(signal.ITIMER_VIRTUAL, 0)
+            return int(bool(r))
+        except _Hang:
+            _HANGS += 1
+            return 3
         except Exception as e:  # noqa
             return 2 if isinstance(e, nx.NetworkXError) else "exc:" + type(e).__name__
     for X, Y, Z in case["qs"]:
         res.append(call(X, Y, Z))
         sym.append(call(Y, X, Z))
+        if _HANGS >= HANG_LIMIT and not case.get("_noskip"):
+            break
     return {"res": res, "sym": sym, "mutated": gr.snapshot(M) != before}
 
 
 def compare(case, impl, model):
+    if impl.get("skipped"):
+        return None          # this worker gave up after HANG_LIMIT non-terminating calls (those are reported)
     if "exc" in impl:
         return "exception"
+    if 3 in impl["res"] or 3 in impl["sym"]:
+        return "non-termination"
     # the generated case must lie in the domain of the theorem (boolean hypotheses of msep_correct_b)
     want = [1, 0, 1] if case["kind"] == "cyclic" else [1, 1, 1]
     if model["flags"][:2] != want[:2] or (case["kind"] != "cyclic" and model["flags"][2] != 1):
@@ -197,9 +234,9 @@ def key(case):
 
 def shrink(case):
     for i in range(len(case["qs"])):
-        yield dict(case, qs=[case["qs"][i]])
+        yield dict(case, qs=[case["qs"][i]], _noskip=True)
     for h in gr.shrink_graph(case["g"]):
         vs = set(h["V"])
         qs = [q for q in case["qs"] if all(v in vs for part in q for v in part)]
         if qs:
-            yield dict(case, g=h, qs=qs)
+            yield dict(case, g=h, qs=qs, _noskip=True)
